@@ -62,6 +62,8 @@ func Run(jobPath, out string) {
 				res[i] = RunLayer(jobs[i].P, jobs[i].Acts, true)
 			case "udp":
 				res[i] = RunUDP(jobs[i].P, jobs[i].Acts)
+			case "sock-udp", "sock-dtls", "sock-tcp", "sock-tls":
+				res[i] = RunSock(jobs[i].Mode[5:], jobs[i].P)
 			case "mix":
 				res[i] = RunMix(toBytes(jobs[i].TokA), toBytes(jobs[i].TokB), jobs[i].NB, jobs[i].Order)
 			case "obsbw":
